@@ -32,6 +32,7 @@ type c13Scenario struct {
 	seed  string
 	stmts []string // statement kinds: create|insert1|insert9|update|delete|select
 	ticks int
+	cache int // > 0: the seed is flushed and the page cache replaced by an empty one of this capacity
 }
 
 func c13Stmt(w *world, kind string) stmt {
@@ -61,23 +62,30 @@ func runC13(env *lib.Env, rep *lib.Report) {
 	}
 	bound := 2
 	scenarios := []c13Scenario{
-		{"insert1", "t1x8", []string{"insert1"}, 2},
-		{"insert9", "t1x8", []string{"insert9"}, 2},
-		{"update", "t1x8", []string{"update"}, 2},
-		{"delete", "t1x8", []string{"delete"}, 2},
-		{"select", "t1x8", []string{"select"}, 2},
-		{"create", "t1x8", []string{"create"}, 2},
-		{"insert1;delete;select", "t1x8", []string{"insert1", "delete", "select"}, 1},
+		{"insert1", "t1x8", []string{"insert1"}, 2, 0},
+		{"insert9", "t1x8", []string{"insert9"}, 2, 0},
+		{"update", "t1x8", []string{"update"}, 2, 0},
+		{"delete", "t1x8", []string{"delete"}, 2, 0},
+		{"select", "t1x8", []string{"select"}, 2, 0},
+		{"create", "t1x8", []string{"create"}, 2, 0},
+		{"insert1;delete;select", "t1x8", []string{"insert1", "delete", "select"}, 1, 0},
+		// a page cache too small for the statement's dirty set: the statement must be refused (or fit), never
+		// make room by writing pages in the middle of the statement
+		{"insert9/cache3", "t1x8", []string{"insert9"}, 1, 3},
+		{"insert9/cache4", "t1x8", []string{"insert9"}, 1, 4},
+		{"insert9/cache5", "t1x8", []string{"insert9"}, 1, 5},
+		{"insert9/cache6", "t1x8", []string{"insert9"}, 1, 6},
+		{"insert9;insert9/cache8", "t1x8", []string{"insert9", "insert9"}, 1, 8},
 	}
 	if env.Thorough() {
 		bound = 3
 		scenarios = append(scenarios,
-			c13Scenario{"insert1;delete;select/2", "t1x8", []string{"insert1", "delete", "select"}, 2},
-			c13Scenario{"update;insert9", "t1x8", []string{"update", "insert9"}, 2},
-			c13Scenario{"insert1;create;insert1", "t1x8", []string{"insert1", "create", "insert1"}, 2},
-			c13Scenario{"insert9;update;delete", "t1x8", []string{"insert9", "update", "delete"}, 3},
-			c13Scenario{"interleaved:insert9;select;insert1", "interleaved", []string{"insert9", "select", "insert1"}, 3},
-			c13Scenario{"delete;insert9;create", "t1x8", []string{"delete", "insert9", "create"}, 3})
+			c13Scenario{"insert1;delete;select/2", "t1x8", []string{"insert1", "delete", "select"}, 2, 0},
+			c13Scenario{"update;insert9", "t1x8", []string{"update", "insert9"}, 2, 0},
+			c13Scenario{"insert1;create;insert1", "t1x8", []string{"insert1", "create", "insert1"}, 2, 0},
+			c13Scenario{"insert9;update;delete", "t1x8", []string{"insert9", "update", "delete"}, 3, 0},
+			c13Scenario{"interleaved:insert9;select;insert1", "interleaved", []string{"insert9", "select", "insert1"}, 3, 0},
+			c13Scenario{"delete;insert9;create", "t1x8", []string{"delete", "insert9", "create"}, 3, 0})
 	}
 	var names []string
 	for _, s := range scenarios {
@@ -101,8 +109,11 @@ func runC13(env *lib.Env, rep *lib.Report) {
 		} else {
 			w = sw
 		}
-		if !dirtySeed && !w.tick() {
+		if (!dirtySeed || sc.cache > 0) && !w.tick() {
 			return
+		}
+		if sc.cache > 0 {
+			storage.VerifReplaceCache(w.sess.RelationService, sc.cache)
 		}
 		sched := storage.VerifNewSched(func(n int, label string, cost []int) int { return c.ChooseCost(n, label, cost) }, sc.ticks)
 		hasCreate := false
@@ -164,11 +175,19 @@ func runC13(env *lib.Env, rep *lib.Report) {
 			c.Fail(sched.ProblemKinds[0], "%s", strings.Join(sched.Problems, "\n"))
 			return
 		}
+		if execErr != nil && sc.cache > 0 && strings.Contains(execErr.Error(), "cache is full") {
+			// refused for lack of room: allowed; the monitors above have seen the whole attempt
+			c.Tag("refused:cache-full")
+			return
+		}
 		if execErr != nil {
 			w.failErr("statement-failed", failedSQL, execErr)
 			return
 		}
 		// M4: contents now, and after crash + recovery
+		if sc.cache > 0 && !w.tick() {
+			return // (a small cache full of dirty pages cannot even serve the SELECTs of the oracle)
+		}
 		if !w.checkAll("after the schedule") {
 			return
 		}
